@@ -23,6 +23,14 @@ def run(tier):
             for name, opts in configs[0]:
                 if name == "native" or tier == "thorough":
                     cases.append({"id": len(cases), "gen": g, "cfgname": name, "opts": list(opts)})
+    # reified comparisons with constants below / inside / above the operand's range: a seeded sample under the
+    # configurations that linearise them (indicators, big-M, fully linear)
+    cmps = [g for g in gen if g["kind"] == "cmp"]
+    lin_cfgs = [c_ for c_ in configs[0] if c_[0].startswith("mip-")]
+    rndc = random.Random(seed() + 17)
+    for g in rndc.sample(cmps, min(len(cmps), 3000 if tier == "thorough" else 400)):
+        name, opts = lin_cfgs[rndc.randrange(len(lin_cfgs))]
+        cases.append({"id": len(cases), "gen": g, "cfgname": name, "opts": list(opts)})
     recs, stats = cvtcases.run_and_record(exe, PID, cases)
     res = validate_parallel("TraceReform", "TraceReform.cfg", recs, os.path.join(SPECS, "flat"), "c01")
     verdicts = [v for r in res for v in printed_json(r, "VERDICT")]
